@@ -1837,6 +1837,10 @@ impl Copy2 for mmv_base::kinds::PK {
     const IS_COPY: bool = false;
     fn extend_by_ref<'a, const N: usize, I: Iterator<Item = &'a Self>>(_: &mut Set<Self, N>, _: I) {}
 }
+impl Copy2 for mmv_base::kinds::FK {
+    const IS_COPY: bool = false;
+    fn extend_by_ref<'a, const N: usize, I: Iterator<Item = &'a Self>>(_: &mut Set<Self, N>, _: I) {}
+}
 impl Copy2 for mmv_base::kinds::DK {
     const IS_COPY: bool = false;
     fn extend_by_ref<'a, const N: usize, I: Iterator<Item = &'a Self>>(_: &mut Set<Self, N>, _: I) {}
@@ -1917,7 +1921,7 @@ where
 }
 
 pub fn run_dyn(case: &Case, cx: &mut Ctx) {
-    use mmv_base::kinds::{NoDrop, PathK, Plain, Str, Tagged, Tracked, ZstDrop, ZstKey};
+    use mmv_base::kinds::{FatTag, NoDrop, PathK, Plain, Str, Tagged, Tracked, ZstDrop, ZstKey};
     // sets are instantiated for tracked / plain / string / zero-sized / no-drop-glue elements
     let kind = match case.kind % mmv_base::case::NKINDS {
         0 => 0,
@@ -1927,6 +1931,7 @@ pub fn run_dyn(case: &Case, cx: &mut Ctx) {
         8 => 8,
         9 => 9,
         10 => 10,
+        11 => 11,
         _ => 1,
     };
     let n = mmv_base::capacity_of(&Case { kind, ..case.clone() });
@@ -1938,6 +1943,7 @@ pub fn run_dyn(case: &Case, cx: &mut Ctx) {
         6 => mmv_base::by_cap!(run, NoDrop, n, case, cx, [0, 1, 2, 3, 4, 6]),
         8 => mmv_base::by_cap!(run, Tagged, n, case, cx, [0, 1, 2, 3, 4, 6, 9]),
         10 => mmv_base::by_cap!(run, ZstDrop, n, case, cx, [0, 1, 2]),
+        11 => mmv_base::by_cap!(run, FatTag, n, case, cx, [0, 1, 2, 3, 4, 6]),
         _ => mmv_base::by_cap!(run, PathK, n, case, cx, [0, 1, 2, 3, 4, 6]),
     }
 }
